@@ -59,6 +59,8 @@ class QueryPlanner:
         if isinstance(predictor_metadata, list):
             # convert to dict
             for predictor in predictor_metadata:
+                # (the planner completes its own copy of a record: the caller's catalog is not written to)
+                predictor = dict(predictor)
                 if 'integration_name' in predictor:
                     integration_name = predictor['integration_name']
                 else:
@@ -70,6 +72,7 @@ class QueryPlanner:
         elif isinstance(predictor_metadata, dict):
             # legacy behaviour
             for name, predictor in predictor_metadata.items():
+                predictor = dict(predictor)
                 if '.' not in name:
                     if 'integration_name' in predictor:
                         integration_name = predictor['integration_name']
